@@ -39,8 +39,9 @@ def run(rep, rng, tier, replay=None):
                 scale = float(sum(abs(x[e] * shifts[e][d]) for e in range(len(x)))) + 1e-300
                 if abs(uv[l * D + d] - float(us[l][d])) > 1e-12 * scale:
                     bad.append("u_vectors[%d][%d] = %r, sum_e s_el x_e p_e = %r" % (l, d, uv[l * D + d], float(us[l][d])))
-        if ratio is None or ratio > Fr(10) ** 8:
-            skipped += 1
+        kap0 = X.cond_estimate(Lm)
+        if ratio is None or ratio > Fr(10) ** 8 or kap0 is None or kap0 > Fr(10) ** 10:
+            skipped += 1          # beyond the condition numbers the property quantifies over (results may be NaN there)
         else:
             tol = 1e-11 * max(1.0, float(ratio)) * max(1.0, float(X.cond_estimate(Lm) or 1))
             if not rel_close(b2f(fi["v"]), float(v), tol):
